@@ -260,6 +260,7 @@ impl<const L: usize, E: EnvLike<L>> EnvLive<L, E> {
     }
 }
 
+#[derive(Clone)]
 pub struct EnvHeader {
     pub id: String,
     pub profile: String,
@@ -371,6 +372,40 @@ impl EGen {
 /// A long run judged by the model-free oracles alone: real stand-alone shadow books replaying every batch in
 /// the order the real `shuffle` gives for a clone of the generator, and the generator having advanced by exactly
 /// one shuffle per step. Prints one `L` line: `L <id> steps=<n> instr=<n> ok` or `... BAD:<what>@step<k>`.
+/// A crowded level: more than 2^16 resting orders at one price on each side (a legal market state; narrower counters
+/// than the published `u32` overflow there). Judged in the harness: after the step the recorded series, the cached
+/// snapshot and the live book must agree on volumes and order counts. One `L` line.
+pub fn run_env_crowd<const L: usize, E: EnvLike<L>, W: Write>(h: &EnvHeader, mut env: E, w: &mut W) {
+    let mut rng = Xoroshiro128StarStar::seed_from_u64(h.seed);
+    let a = env.n_assets() - 1;
+    let tick = h.ticks[a % h.ticks.len()];
+    let (nb, na) = (65_537u32, 70_000u32);
+    let mut verdict = "ok".to_string();
+    let r = catch_unwind(AssertUnwindSafe(|| {
+        for _ in 0..nb { env.submit(a, true, 1, 7, Some(100 * tick)).unwrap(); }
+        for _ in 0..na { env.submit(a, false, 1, 8, Some(110 * tick)).unwrap(); }
+        env.do_step(&mut rng);
+        env.do_step(&mut rng);
+        let mut bad: Vec<&str> = Vec::new();
+        let live_b = env.book(a).bid_best_vol_and_orders();
+        let live_a = env.book(a).ask_best_vol_and_orders();
+        if (live_b.0 as u64, live_b.1 as u64) != (nb as u64, nb as u64) || (live_a.0 as u64, live_a.1 as u64) != (na as u64, na as u64) { bad.push("record_live_book_counts_wrong"); }
+        let rec = env.records(a);
+        fn last<T: Copy + Into<u64>>(v: &Vec<T>) -> u64 { v.last().map(|x| (*x).into()).unwrap_or(u64::MAX) }
+        if last(&rec.orders_at_levels.0[0]) != nb as u64 || last(&rec.orders_at_levels.1[0]) != na as u64 { bad.push("record_level_order_counts_entry"); }
+        if last(&rec.volumes_at_levels.0[0]) != nb as u64 || last(&rec.volumes_at_levels.1[0]) != na as u64 { bad.push("record_level_volumes_entry"); }
+        let c = env.cached(a);
+        if (c.bid_price_levels[0].1 as u64, c.ask_price_levels[0].1 as u64) != (nb as u64, na as u64) { bad.push("cache_is_live_level2"); }
+        if !env.getters_ok(a) { bad.push("record_getters_disagree"); }
+        bad.join("+")
+    }));
+    match r {
+        Ok(b) => { if !b.is_empty() { verdict = format!("BAD:{}@step1", b); } }
+        Err(_) => verdict = "BAD:panic@step0".into(),
+    }
+    writeln!(w, "L {} steps=2 instr={} {} {}", h.id, nb + na, verdict, h.line().replace(' ', "_")).unwrap();
+}
+
 pub fn run_env_long<const L: usize, E: EnvLike<L>, W: Write>(h: &EnvHeader, env: E, g: &mut EGen, rounds: usize, w: &mut W) {
     QUIET.store(true, std::sync::atomic::Ordering::Relaxed);
     let shadows = h.ticks.iter().map(|t| OrderBook::<L>::new(h.t0, *t, h.trading)).collect();
